@@ -198,8 +198,11 @@ def check_pair(args):
     out = []
     try:
         R = mkregs()
-        m1 = build_map(R, s1, 0)
-        m2 = build_map(R, s2, 4)
+        try:
+            m1 = build_map(R, s1, 0)
+            m2 = build_map(R, s2, 4)
+        except Exception:
+            return [], 0      # the input map itself cannot be built (e.g. a store through a pointer set to top): nothing to merge
         b1, b2 = str(m1), str(m2)
         kargs = {"widening": True} if widening else {}
         try:
@@ -221,6 +224,11 @@ def check_pair(args):
         # per-location symbolic comparison would then ask for more than the statement; such pairs are judged by the
         # concrete consequence below only
         pcond = "p==P" in (s1.get("c"), s2.get("c"))
+        # a map that redefines p and also stores through p names its own locations differently from the menu:
+        # such pairs are judged by the concrete consequence only as well
+        for w_ in (wl1, wl2):
+            if "p" in w_ and any(x in w_ for x in ("Mp", "Mp4", "M8p1", "Mv4")):
+                pcond = True
         extra = set() if pcond else (wl - allowed)
         if extra:
             out.append((("extra-location", feature(s1, s2)), "merged map writes %s, inputs write %s" % (sorted(extra), sorted(allowed))))
